@@ -315,6 +315,17 @@ impl Property for C18 {
             return serde_json::to_value(C18Case::Dynamic(DynCase { solver: DynKind::Preferred, factor: 0, string_labels: rng.bool(), oracle, backend: Backend::Sim, steps })).unwrap();
         }
         let mut c = one_query_case(&mut rng, 60, oracle, Backend::Sim);
+        // half of the runs go to the most intricate loop: the preferred skeptical search (three exits,
+        // blocking clauses under a selector), where non-termination bugs need multi-step ascents
+        if rng.bool() && !c.queries[0].args.is_empty() {
+            c.sem = Sem::PR;
+            c.queries[0].kind = QKind::DS;
+            let mut s = RefStore::default();
+            for u in &c.fw.ops {
+                s.apply(u);
+            }
+            c.enc = tame_encoder(*rng.pick(&encoders_for(Sem::PR, QKind::DS)), &s);
+        }
         // SAT-based semantics only (GR makes no call); DC-PR is CO, DS-CO is GR: keep them, they are cheap
         if c.sem == Sem::GR {
             c.sem = *rng.pick(&[Sem::PR, Sem::ID, Sem::SST, Sem::STG]);
